@@ -1,7 +1,7 @@
 // unit float_error_bounds: float/src/round.rs `impl ErrorBounds for mode::{Zero, Away, Up, Down, HalfAway}` (C18: the
-// rounding interval that RBig::simplest_from_float searches), with the real helpers FBig::{precision, repr, ulp, new},
-// Repr::{is_zero, sign, is_infinite, digits}.  HalfEven: see unit float_error_bounds_halfeven (NOT registered: its
-// contract fails on the unchanged tree).
+// rounding interval that RBig::simplest_from_float searches), with the real helpers is_power_of_base, ulp_towards_zero,
+// FBig::{precision, repr, ulp, new}, Repr::{is_zero, sign, is_infinite, digits}.  HalfEven: unit float_error_bounds_halfeven
+// (same contract, separate file for historical reasons).
 #![allow(unused_imports, unused_variables, dead_code, non_snake_case, unused_mut, unused_parens, unused_braces)]
 use vstd::prelude::*;
 verus! {
@@ -37,6 +37,8 @@ impl<R: Round, const B: Word> FBig<R, B> {
 //@@ FN float/ebounds/fbig_repr.rs
 //@@ FN float/ebounds/fbig_ulp.rs
 }
+//@@ FN float/ebounds/is_power_of_base.rs
+//@@ FN float/ebounds/ulp_towards_zero.rs
 //@@ FN float/ebounds/zero.rs
 //@@ FN float/ebounds/away.rs
 //@@ FN float/ebounds/up.rs
